@@ -86,13 +86,27 @@ def tags(a):
     return np.round(np.asarray(a, dtype=float)).astype(np.int64).tolist()
 
 
+MAG = [-1]
+
+
 def slice_events(darsia, rng, shape, table, tid):
     """slice / reduce_axis by Cartesian name versus by matrix index, every axis, every cut."""
     n = len(shape)
     ev = []
     h = [rng.choice([0.1, 0.5, 0.3 / 7]) for _ in range(n)]
+    # (magnitudes in turn: ordinary; an origin a million voxel sizes away; nanometre voxels; kilometre voxels)
+    MAG[0] += 1
+    omode = rng.choice(["default", "user", "int", "intarr"])
+    if MAG[0] % 4 == 1:
+        omode = "far"
+    elif MAG[0] % 4 == 2:
+        h = [x * 1e-8 for x in h]
+        omode = "user"
+    elif MAG[0] % 4 == 3:
+        h = [x * 1e4 for x in h]
+        omode = "user"
     # origins as users write them: floats, Python ints, integer arrays (a cut coordinate is a float in every case)
-    img, o, arr = build_image(darsia, rng, shape, h, rng.choice(["default", "user", "int", "intarr"]), "scalar", table)
+    img, o, arr = build_image(darsia, rng, shape, h, omode, "scalar", table)
 
     def slices_for(c, name, org, suffix):
         # slices: cut through the centre of voxel q along the matrix axis belonging to name c; the cut coordinate is the
